@@ -6,9 +6,11 @@ var zzRegistry = map[string]func(int){
 	"ZZ_C05":      ZZ_C05,
 	"ZZ_C06":      ZZ_C06,
 	"ZZ_C07":      ZZ_C07,
+	"ZZ_C08Cache": ZZ_C08Cache,
 	"ZZ_C09":      ZZ_C09,
 	"ZZ_C11":      ZZ_C11,
 	"ZZ_C10":      ZZ_C10,
+	"ZZ_C10Race":  ZZ_C10Race,
 	"ZZ_C13":      ZZ_C13,
 	"ZZ_C14":      ZZ_C14,
 	"ZZ_C15":      ZZ_C15,
